@@ -122,13 +122,17 @@ def same_result(rj, rp, exact):
 INEXACT = {'normal', 'leftLaInv', 'hitzer_inverse', 'shirokov_inverse', 'abs', 'expr_up', 'div_s'}
 
 
-def operands(rng, L, dt, invertible=False):
+def operands(rng, L, dt, invertible=False, small=False):
     import numpy as np
     from clifford import MultiVector
     N = L.gaDims
     if invertible:
         v = np.array(gen.int_mv(rng, N, 'sparse2', -2, 2))
         v[0] += 5
+    elif small:
+        # repeated products (powers up to 6): the 2^20-sized family would leave int64 / the exact range of binary64,
+        # where the exact model and the machine arithmetic legitimately differ (false alarm corrected, DESIGN §8)
+        v = np.array(gen.int_mv(rng, N, str(rng.choice(['dense', 'sparse2', 'half']))))
     else:
         v = np.array(gen.int_mv(rng, N))
     if dt == 'float64':
@@ -155,7 +159,7 @@ def run_wrappers(res, layouts, rng, tier):
                         continue
                     if name == 'leftLaInv' and L.gaDims > 32 and tier == 'quick':
                         continue
-                    A = operands(rng, L, dt, invertible=inv)
+                    A = operands(rng, L, dt, invertible=inv, small=name.startswith('pow'))
                     B = operands(rng, L, dt)
                     if kind == 'u':
                         args = (A,)
